@@ -245,4 +245,10 @@ def demo : Program :=
 
 example : wf demo = true ∧ demo.skipDeco = none ∧ setUpOk demo = true := by decide
 
+/-! ### tie to the source: the loop of `RunTest._run_cleanups`
+`TTV.Generated.RunSkel.cleanupsShape` is produced by `harness/pyskel.py` from `testtools/runtest.py` on every run. -/
+/-- the loop found in the source is the one `runCleanups` models: pop the live stack until it is empty, each cleanup
+through `_run_user`, failure sticky (shape recognition: any other loop is reported as `other`) -/
+theorem C02_src_run_cleanups : Generated.RunSkel.cleanupsShape = RunSkel.CleanupsShape.liveStackLifo := by decide
+
 end TTV.Props.C02
